@@ -109,6 +109,11 @@ def coq_gast(a):
 
 SOUP = [0, 1, 2, 3, 7, 10, "(", ")", "(", ")", "-", "+", "-", "+", "*", "/", "div", "mod", "^", "round", "=", "!=", "<>", "<", ">",
         "<=", ">=", "and", "or", "not", "abs", "ceil", "floor", "trunc", "sqrt", "ln"]
+# ("e" is left out of the random soups: where an operand is expected it is the constant e, which the machine has no token for)
+# sign runs after every kind of operator (the operand parsers below the ladder handle the signs themselves)
+SIGN_CORPUS = [[2, "e", "-", "-", 1], [2, "e", "-", "+", 1], [3, "e", "-", "-", 2, "*", 2], [1, "e", "+", "-", "+", 1], [2, "e", "-", "-", "-", 1],
+               [2, "^", "-", "-", 1], [3, "-", "-", "-", 1], [2, "*", "-", "+", "-", 3], ["-", "-", 2, "e", "-", 1], ["not", "-", "-", 0],
+               [5, "e", "+", 1], [5, "e", "+", "+", 1], ["-", 2, "e", 2], [2, "e", "(", "-", "(", "-", 1, ")", ")"], [1, "e", "-", "not", 0]]
 EXPR_DEFS = ("Open Scope string_scope.\nFrom WTP Require Import Gen.GenLadder.\n"
              "Definition conv (l : list (level_kind * list string)) : list level :=\n"
              "  map (fun x => (match fst x with BinaryLeft => LBin | PrefixFns => LPre end, snd x)) l.\n"
@@ -123,12 +128,22 @@ def check_expr_parser(run, asts, rng, quick):
     soups = []
     for _ in range(1500 if quick else 30000):
         soups.append([rng.choice(SOUP) for _ in range(rng.randint(1, 9))])
+    soups = SIGN_CORPUS + soups
+    # documented values of some of the sign runs (every "-" of a run negates; redundant parentheses change nothing)
+    sign_values = {"2 e - - 1": "20", "3 e - - 2 * 2": "600", "2 e - - - 1": "0.2", "2 ^ - - 1": "2", "3 - - - 1": "2",
+                   "- - 2 e - 1": "0.2", "2 e ( - ( - 1 ) )": "20", "5 e + 1": "50", "- 2 e 2": "-200", "not - - 0": "1"}
     texts = ["{{#expr: " + " ".join(map(str, t)) + "}}" for t in tok_cases + soups]
     chunks = [texts[i:i + 250] for i in range(0, len(texts), 250)]
     res = lib.run_impl("expand_many", [{"texts": c} for c in chunks], shards=lib.NCPU)
     outs = [o for r in res for o in (r.get("outs") or [["harness", r.get("outcome")]] * 250)]
     a_cases, a_idx, s_cases, s_idx = [], [], [], []
     for i, t in enumerate(tok_cases + soups):
+        key = " ".join(map(str, t))
+        if i >= len(tok_cases) and key in sign_values:
+            o_ = outs[i] if i < len(outs) else None
+            if o_ is not None and (o_[0] != "ok" or o_[1] != sign_values[key]):
+                run.property_failure("expr:value-differs-from-reference:sign-run",
+                                     "{{#expr: %s}} -> %r, documented value %s" % (key, o_, sign_values[key]), {"texts": [texts[i]]})
         o = outs[i]
         run.count(["expr-tokens", texts[i]], len(t) >= 4, "expr-tree-tokens" if i < len(tok_cases) else "expr-token-soup")
         if o[0] != "ok":
